@@ -9,7 +9,7 @@ PROP = 'C03'
 MODULE = 'WaveletsVerif.Properties.C03'
 THEOREMS = ['WV.C03.colfilter1_eq_ref', 'WV.C03.coldfilt1_eq_ref', 'WV.C03.interleave2_get', 'WV.C03.coldfilt1_raises_iff',
             'WV.C03T.reflect_eq_symIdx', 'WV.C03T.symm_pad_1d_eq', 'WV.C03T.symmPad_eq_gather',
-            'WV.C03P.alongH_alongW_comm', 'WV.C03P.GL_colfilter', 'WV.C03P.GL_coldfilt', 'WV.C03P.fwdJ1_eq_ref', 'WV.C03P.fwdJ2_eq_ref', 'WV.C03P.dtcwt_forward_eq_ref', 'WV.C01Z.extendEven_gen']
+            'WV.C03P.alongH_alongW_comm', 'WV.C03P.GL_colfilter', 'WV.C03P.GL_coldfilt', 'WV.C03P.fwdJ1_eq_ref', 'WV.C03P.fwdJ2_eq_ref', 'WV.C03P.dtcwt_forward_eq_ref', 'WV.C01Z.extendEven_gen', 'WV.C19Z.prep_mirrors_gen']
 OPS = ['colfilter', 'rowfilter', 'coldfilt', 'rowdfilt', 'q2c', 'fwd_j1', 'fwd_j2plus', 'DTCWTForward']
 
 
